@@ -176,6 +176,11 @@ def run(tier, seed):
                 "name p\nversion 1.0\nint array A =\n    1, 2,\n", "name p\nversion 1.0\nOp({p) | 0\n", "name p\nversion 1.0\nOp(sin 1) | 0\n",
                 "name p\nversion 1.0\ntarget\nOp | 0\n", "name p\nversion 1\nOp | 0\n", "name 1p\nversion 1.0\n", "name p\nversion 1.0\n$\n",
                 "name p\nversion 1.0\nOp(a=) | 0\n", "name p\nversion 1.0\nOp(a=1, 2) | 0\n", "name p\nversion 1.0\ninclude x\n"]
+        # completely empty lines where the grammar admits exactly ONE line end: after the '=' of an array, between its rows, after a
+        # for header (blank lines are insignificant only BETWEEN statements)
+        hand += ["name p\nversion 1.0\nfloat array A =\n\n    1, 2\nOp(A) | 0\n", "name p\nversion 1.0\nfloat array A =\n    1, 2\n\n    3, 4\nOp(A) | 0\n",
+                 "name p\nversion 1.0\nfor int i in 0:2\n\n    Op(i) | 0\n", "name p\nversion 1.0\nfor int i in 0:2\n    Op(i) | 0\n\n    Vac | i\n",
+                 "name p\nversion 1.0\nfloat array A[1, 2] =\n\n\n    1, 2\n"]
         # characters the grammar has no token for, visible or not, at the very start of the text and elsewhere (byte order mark,
         # zero-width space, no-break space, soft hyphen): the text is not a sentence
         ok_script = "name p\nversion 1.0\nOp(1) | 0\n"
